@@ -880,6 +880,17 @@ func (w *world) Exec(r *hx.Run, op []string) string {
 		}
 		w.checkSetsInForce(r, "crash-restart", got)
 		return "crashed ok " + got.String()
+	case "prefill":
+		// prefill <n>: the in-memory header index is grown to n entries (header height n-1)
+		if len(op) != 2 || w.main.store == nil {
+			return "bad-op"
+		}
+		n, err := strconv.ParseUint(op[1], 10, 32)
+		if err != nil {
+			return "bad-op"
+		}
+		w.main.store.VerifPrefillHeaderIndex(uint32(n))
+		return "ok " + w.main.observe().String()
 	case "fast":
 		// fast <ts0> <lastcfg> <hash>...: honest empty blocks at the next heights, signed by the set in force, added
 		// one after the other without observing in between (long chains)
